@@ -170,7 +170,7 @@ func runC18(p *P, r *R) {
 				"the send loop may be parked waiting for the flag; without the notification it never retries: %s", p.pathString(res))
 		}
 	}
-	r.count("R18.2", "fast-path releases", nRel, 2)
+	r.count("R18.2", "fast-path releases", nRel, 1)
 	r.count("R18.2", "send loops", nLoop, 1)
 
 	c18WriteLoop(p, r)
